@@ -10,7 +10,7 @@
 
   One set of definitions, parameterised by `fx : Bool`:
     fx = false : the code as it is (defects included)
-    fx = true  : the code with the proposed guards (props/C05.val.fix-*.diff) applied.
+    fx = true  : the code with the proposed guards (props/C05.fix-{6,10,11,12,13,14,15}.diff) applied.
 
   Core Lean only.  Recursion over the type tree is structural (nested inductive), data-driven
   loops recurse structurally on the element count read from the data (each iteration either fails
@@ -385,8 +385,10 @@ def goType (fx : Bool) : CT → Res GT
   | .map k v => do
       let gk ← goType fx k
       let gv ← goType fx v
-      -- reflect.MapOf(keyType, valueType)
-      if hashable gk then .ok (.map gk gv) else crashOrErr fx ⟨.goType, .reflect⟩
+      -- reflect.MapOf(keyType, valueType) behind `if !keyType.Comparable() { return nil, err }`
+      -- (the guard is in the tree since /repo commit c637d3e "fix: RowData/MapScan/SliceMap panicked on a
+      -- map column whose key type is not comparable in Go"; before it this was a reflect.MapOf panic)
+      if hashable gk then .ok (.map gk gv) else .err
   | .tuple _ => .ok (.slice (.sc .iface))
   | .udt _ => .ok (.map (.sc .string) (.sc .iface))
 
@@ -441,7 +443,7 @@ def seqKind : GT → Option (Bool × Nat × GT)
 /-- the element count unmarshalList hands to `reflect.MakeSlice(t, n, n)`, given the declared
     count `n`, the bytes left after the count (`avail`) and the size of an element header (`p`).
     Code as it is: a negative count panics, any other count is allocated. Fixed: a negative count is
-    an error (fix-1) and so is a count that the remaining bytes cannot hold (fix-7: every element
+    an error (fix-11) and so is a count that the remaining bytes cannot hold (fix-15: every element
     needs at least its `p`-byte length). -/
 def makeCount (fx : Bool) (n : Int) (avail p : Nat) : Res Nat :=
   if n < 0 then crashOrErr fx ⟨.unmarshalList, .reflectMakeslice⟩
@@ -449,7 +451,7 @@ def makeCount (fx : Bool) (n : Int) (avail p : Nat) : Res Nat :=
   else .ok n.toNat
 
 /-- the hint unmarshalMap hands to `reflect.MakeMapWithSize(t, n)`; `avail` = bytes after the count.
-    Fixed (fix-7): a count above avail / (2p) is an error (every entry needs two headers). -/
+    Fixed (fix-15): a count above avail / (2p) is an error (every entry needs two headers). -/
 def makeMapCount (fx : Bool) (n : Int) (avail p : Nat) : Res Nat :=
   if n < 0 then .err
   else if fx && n.toNat > avail / (2 * p) then .err
